@@ -2488,3 +2488,20 @@ for _sp, _n in ((process_userauth_request, 3), (hostbased_start, 3), (kbdint_sta
 for _sp in (process_userauth_request, hostbased_start, kbdint_start, password_start, publickey_start, gsskex_start,
             pty_req, validate_host_based_auth):
     _sp.feasible_timeout_ms = 250
+
+
+# ====================================================================================================
+# permitopen="host:port" of the accepted key: a direct-tcpip channel is opened only to a (host, port) pair the
+# credential's permitopen set contains - BOTH components matching (the port may be the '*' wildcard, stored as None).
+# The contract object is C20's (contracts/c20.py: permitopen_allows / open_gate_*); re-registered so that this
+# restriction of the accepted credential is also checked under C05.
+# ====================================================================================================
+try:
+    from . import c20 as C20
+    _po = getattr(C20, 'process_direct_tcpip_open', None)
+    if _po is not None:
+        direct_tcpip_open = _copy.copy(_po)
+        direct_tcpip_open.prop = PROP
+        Spec.registry.append(direct_tcpip_open)
+except ImportError:
+    pass
